@@ -83,6 +83,7 @@ def check_case(case):
         if list(tt) != list(tp):
             v.fail("C12:keys", "order keys differ between target and proton run")
             continue
+        floor = run.noise_floor(tp, tt)
         for k in tp:
             exp = np.array(tp[k], copy=True)
             for sgn in (1, -1):
@@ -93,9 +94,9 @@ def check_case(case):
                     nz = True
             s = max(run.maxabs(tp[k]), run.maxabs(tt[k]))
             dlt = run.maxabs(tt[k] - exp)
-            v.metric("rotation", dlt / (RTOL * s + 1e-300))
-            if not dlt <= RTOL * s + 1e-300:
-                rows = [run.PIDS[i] for i in np.unique(np.nonzero(np.abs(tt[k] - exp) > RTOL * s)[0])]
+            v.metric("rotation", dlt / (RTOL * s + floor))
+            if not dlt <= RTOL * s + floor:
+                rows = [run.PIDS[i] for i in np.unique(np.nonzero(np.abs(tt[k] - exp) > RTOL * s + floor)[0])]
                 v.fail(
                     f"C12:rotation:{meta['process']}:{meta['kind']}:{meta['heavyness']}",
                     f"target(Z={z},A={a}) != rotated proton: |d|={dlt:.3e} scale {s:.3e} key {k} rows {rows}",
